@@ -31,6 +31,11 @@ def scenario(ctx, seed, goal, phase, party, lose, record_controls=None):
     cell sent after the teardown started) that are dropped instead of delivered"""
     w = R.world("line4", seed)
     try:
+        if seed % 2 == 1:
+            # the exit also wants circuits of its own but knows no exit it could use: its do_circuits fails every round
+            # (the periodic sweep must run nevertheless)
+            w.loop.call(w.ov["x"].build_tunnels, 1)
+            w.loop.drain()
         k = 0            # ordinal of lossable messages
         torn = [False]
         lossable = []
